@@ -580,11 +580,23 @@ def slotField : Slot → Field
   | .inl f => f
   | .inr _ => placeholderField
 
+/-- a placeholder that has not been looked at yet -/
+def pendingSlot (s : Slot) : Bool :=
+  match s with
+  | .inr (n, _) => !n.isEmpty
+  | _ => false
+
+/-- the field of a slot that is not a placeholder -/
+def slotDone (s : Slot) : Option Field :=
+  match s with
+  | .inl f => some f
+  | .inr _ => none
+
 /-- revert the placeholders one after the other (each sees the earlier replacements) -/
 def revertAll (ar : Arith) (mesgNum : Nat) : Nat → List Slot → R (List Slot)
   | 0, slots => .ok slots
   | fuel + 1, slots =>
-    match slots.findIdx? (fun s => match s with | .inr (n, _) => !n.isEmpty | _ => false) with
+    match slots.findIdx? pendingSlot with
     | none => .ok slots
     | some i =>
       match slots[i]? with
@@ -602,12 +614,15 @@ def removeField (n : Nat) : List Field → List Field
   | [] => []
   | f :: fs => if hasNum n f then fs else f :: removeField n fs
 
+/-- component targets of a field: its own components and those of all its sub-fields -/
+def targetsOf (mesgNum : Nat) (f : Field) : List Nat :=
+  match pfield mesgNum (fieldNumOf f) with
+  | some p => p.comps ++ p.subs.flatMap (·.comps)
+  | none => []
+
 def removeExpanded (mesgNum : Nat) (fields : List Field) : List Field :=
   let present := fields.map fieldNumOf
-  let targets := fields.flatMap fun f =>
-    match pfield mesgNum (fieldNumOf f) with
-    | some p => p.comps ++ p.subs.flatMap (·.comps)
-    | none => []
+  let targets := fields.flatMap (targetsOf mesgNum)
   let cands := (targets.filter present.contains).eraseDups
   cands.foldl (fun fs n => removeField n fs) fields
 
@@ -637,7 +652,7 @@ def createMesg (ar : Arith) (ds : List Desc) (mesgNum : Nat) (cells : List Cell)
     | .err => .err
     | .unmodelled => .unmodelled
     | .ok slots' =>
-      let fields := slots'.filterMap fun s => match s with | .inl f => some f | .inr _ => none
+      let fields := slots'.filterMap slotDone
       .ok { num := mesgNum, fields := removeExpanded mesgNum fields, devFields := devs }
 
 /-! ### CSV → FIT: lines and sequences (`convert`) -/
@@ -707,13 +722,17 @@ structure Back where
   seq : Nat                    -- `ResultInfo().Sequence`
   deriving Repr
 
-/-- `CSVToFITConv.Convert` -/
-def fromCsv (ar : Arith) (ls : List Line) : R Back :=
+/-- what `CSVToFITConv.convert` hands to the encoder: the sequences, in order -/
+def fromCsvPre (ar : Arith) (ls : List Line) : R Back :=
   match readLines ar {} ls with
-  | .ok s =>
-    let seqs := (s.cur.reverse :: s.done).reverse
-    -- an empty sequence or a message the validator rejects: Encode returns an error
-    if seqs.all (fun q => !q.isEmpty && gateSeq [] [] q) then .ok ⟨seqs, s.seq⟩ else .err
+  | .ok s => .ok ⟨(s.cur.reverse :: s.done).reverse, s.seq⟩
+  | .err => .err
+  | .unmodelled => .unmodelled
+
+/-- `CSVToFITConv.Convert`: an empty sequence or a message the validator rejects makes Encode return an error -/
+def fromCsv (ar : Arith) (ls : List Line) : R Back :=
+  match fromCsvPre ar ls with
+  | .ok b => if b.seqs.all (fun q => !q.isEmpty && gateSeq [] [] q) then .ok b else .err
   | .err => .err
   | .unmodelled => .unmodelled
 
